@@ -3355,6 +3355,24 @@ impl IceCandidate {
             None
         };
 
+        // Optional related address (RFC 8839 5.1: `raddr <addr> rport <port>`), the
+        // counterpart of what to_sdp() writes for reflexive and relayed candidates.
+        let mut raddr: Option<IpAddr> = None;
+        let mut rport: Option<u16> = None;
+        let mut i = 8;
+        while i + 1 < parts.len() {
+            match parts[i] {
+                "raddr" => raddr = parts[i + 1].parse().ok(),
+                "rport" => rport = parts[i + 1].parse().ok(),
+                _ => {}
+            }
+            i += 2;
+        }
+        let related_address = match (raddr, rport) {
+            (Some(ip), Some(port)) => Some(SocketAddr::new(ip, port)),
+            _ => None,
+        };
+
         Ok(Self {
             foundation,
             priority,
@@ -3362,7 +3380,7 @@ impl IceCandidate {
             typ,
             transport,
             tcp_type,
-            related_address: None,
+            related_address,
             component,
         })
     }
